@@ -2244,8 +2244,8 @@ fn evaluate_scalar_func(
                         let value = get_int_value(value_arr, i)? as i64;
 
                         let new_date = match unit.as_str() {
-                            "day" | "days" => date.checked_add_signed(Duration::days(value))?,
-                            "week" | "weeks" => date.checked_add_signed(Duration::weeks(value))?,
+                            "day" | "days" => date.checked_add_signed(Duration::try_days(value)?)?,
+                            "week" | "weeks" => date.checked_add_signed(Duration::try_weeks(value)?)?,
                             "month" | "months" => {
                                 if value >= 0 {
                                     date.checked_add_months(Months::new(value as u32))?
@@ -2296,8 +2296,8 @@ fn evaluate_scalar_func(
                                 dt.checked_add_signed(Duration::minutes(value))?
                             }
                             "hour" | "hours" => dt.checked_add_signed(Duration::hours(value))?,
-                            "day" | "days" => dt.checked_add_signed(Duration::days(value))?,
-                            "week" | "weeks" => dt.checked_add_signed(Duration::weeks(value))?,
+                            "day" | "days" => dt.checked_add_signed(Duration::try_days(value)?)?,
+                            "week" | "weeks" => dt.checked_add_signed(Duration::try_weeks(value)?)?,
                             "month" | "months" => {
                                 if value >= 0 {
                                     dt.checked_add_months(Months::new(value as u32))?
